@@ -685,6 +685,9 @@ CONFIGS = {
     'K2-two-branches': (('append', 'D', 'S0'), ('append', 'D', 'S1'), ('append', 'S1', 'S2'),
                         ('append', 'S0', 'P0'), ('append', 'S1', 'P1')),
     'K3-no-document': (('append', 'S0', 'S1'), ('append', 'S0', 'P0'), ('append', 'S2', 'P1')),
+    # three sibling sections (the third one named by its id) so that positions 0..2 all exist
+    'K4-three-siblings': (('rename', 'S2', None), ('extend', 'D', ('S0', 'S1', 'S2')),
+                          ('extend', 'S1', ('P0', 'P1'))),
 }
 
 
@@ -716,22 +719,35 @@ def op_json(op):
     return [list(x) if isinstance(x, tuple) else x for x in op]
 
 
-def run_histories(tier='quick', seed=0, depth=None, configs=None, max_states=None):
+PLANS = {
+    # (start configuration, number of operations explored exhaustively from it)
+    'quick': (('K0-all-detached', 2), ('K2-two-branches', 2), ('K1-chain', 1), ('K3-no-document', 1),
+              ('K4-three-siblings', 1)),
+    'thorough': (('K0-all-detached', 3), ('K2-two-branches', 2), ('K1-chain', 2), ('K3-no-document', 2),
+                 ('K4-three-siblings', 2)),
+}
+
+
+def run_histories(tier='quick', seed=0, plan=None, walks=None, max_evaluations=None):
     quick = tier == 'quick'
-    if depth is None:
-        depth = 2 if quick else 3
-    if configs is None:
-        configs = list(CONFIGS)
+    if plan is None:
+        plan = PLANS['quick' if quick else 'thorough']
+    if walks is None:
+        walks = 0 if quick else 4000
+    if max_evaluations is None:
+        max_evaluations = 75000 if quick else 750000
     col = h.Collector(
         NAME,
-        rule='explicit-state BFS: every operation of the C03 list (%d concrete operations over a pool of '
-             '1 Document, 3 Sections named a,b,a, 2 Properties named a,b) applied to every distinct '
-             'Inv-state reachable by <= %d operations from the start configurations %s (equivalent to all '
-             'operation sequences of length <= %d; histories reaching the same canonical state are merged); '
-             'one evaluation = one (state, operation) contract check {Inv} op {Inv, unchanged on raise}; '
-             'distinct = (operation kind, pre-state feature, outcome)%s'
-             % (len(OPS), depth - 1, ','.join(configs), depth,
-                '' if quick else '; plus seeded random walks of length <= 8 from all-detached'),
+        rule='explicit-state search: every one of the %d concrete operations of the C03 list (pool: 1 Document, '
+             '3 Sections named a,b,a, 2 Properties named a,b) is applied to every distinct Inv-state reachable '
+             'by fewer than n operations from a start configuration, for (configuration, n) in %s - equivalent '
+             'to all operation sequences of length <= n from that configuration, histories reaching the same '
+             'canonical state being merged; each start configuration is itself a history from fresh detached '
+             'objects; one evaluation = one contract check {Inv} op {Inv; unchanged on raise} on a pre-state '
+             'rebuilt from fresh objects; distinct = (operation kind, pre-state feature, outcome)%s'
+             % (len(OPS), list(plan),
+                '; plus %d seeded random walks of up to 8 Inv-preserving operations from all-detached' % walks
+                if walks else ''),
         exhaustive=True)
     raw = {}          # (clause, kind, feature) -> [count, history, op, detail]
 
@@ -744,51 +760,51 @@ def run_histories(tier='quick', seed=0, depth=None, configs=None, max_states=Non
             if len(hist) < len(raw[k][1]):
                 raw[k][1:] = [tuple(hist), op, detail]
 
-    seen = {}
-    frontier = []
-    for cname in configs:
+    seen = {}                                   # canonical state -> largest remaining depth it was expanded with
+    max_depth = max(d for _, d in plan)
+    buckets = {d: [] for d in range(max_depth + 1)}
+    for cname, d in plan:
         hist = CONFIGS[cname]
         env = replay(hist)
         assert not invariant(env), cname
         key = canon(env)
-        if key not in seen:
-            seen[key] = hist
-            frontier.append(hist)
+        if seen.get(key, 0) < d:
+            seen[key] = d
+            buckets[d].append(hist)
     states_expanded = 0
-    for level in range(depth):
-        nxt = []
-        if max_states is not None and level > 0:
-            rnd = random.Random(seed + level)
-            if len(frontier) > max_states:
-                frontier = sorted(rnd.sample(frontier, max_states), key=repr)
-                col.exhaustive = False
-        for hist in frontier:
+    truncated = False
+    for remaining in range(max_depth, 0, -1):
+        for hist in buckets[remaining]:
+            if col.evaluations >= max_evaluations:
+                truncated = True
+                break
             states_expanded += 1
             for op in OPS:
                 violations, key, outcome, feat = evaluate(hist, op)
                 col.case(cls_key=(op[0], feat, outcome),
-                         sample='%s ; %s' % (list(hist), op) if level else None)
+                         sample='%s ; %s' % (list(hist), op) if len(hist) > 5 else None)
                 if violations:
                     record(violations, hist + (op,), op, feat)
-                if key is not None and key not in seen:
-                    seen[key] = hist + (op,)
-                    nxt.append(hist + (op,))
-        frontier = nxt
+                if key is not None and remaining > 1 and seen.get(key, 0) < remaining - 1:
+                    seen[key] = remaining - 1
+                    buckets[remaining - 1].append(hist + (op,))
+    if truncated:
+        col.exhaustive = False
 
-    if not quick:
+    if walks:
         rnd = random.Random(seed)
-        walks = 3000
         for _ in range(walks):
             hist = ()
-            for _step in range(8):
+            for _attempt in range(16):
+                if len(hist) >= 8:
+                    break
                 op = rnd.choice(OPS)
                 violations, key, outcome, feat = evaluate(hist, op)
                 col.case(cls_key=(op[0], feat, outcome))
                 if violations:
                     record(violations, hist + (op,), op, feat)
-                if key is None:
-                    break           # Inv broken: later operations are outside the contract
-                hist = hist + (op,)
+                if key is not None:
+                    hist = hist + (op,)     # only Inv-preserving steps extend the history (requires Inv)
 
     # shortest witness from fresh objects, final classification on the minimised pre-state
     final = {}
